@@ -11,6 +11,10 @@ type Tag struct {
 	Name              TagName
 	Title             string
 	Description       *string
+
+	// fromPath is true for a tag made up from the path of an untagged interaction: it exists only from that
+	// interaction on, so a Tags directive cannot refer to it (whether it could depended on the order of the text).
+	fromPath bool
 }
 
 var _ json.Marshaler = &Tags{}
@@ -31,6 +35,7 @@ func newPathTag(r InteractionID) *Tag {
 		Children:          &Tags{},
 		Title:             title,
 		Name:              tagName(title),
+		fromPath:          true,
 	}
 }
 
